@@ -62,6 +62,7 @@ type Prog struct {
 	CG      *callgraph.Graph
 	SSAFunc map[*Func]*ssa.Function
 	RepoDir string
+	StdRoot string // directory the standard library sources were loaded from (shows which toolchain's build was analysed)
 	Env     []string
 	Tags    string
 	Stats   map[string]int
@@ -182,6 +183,15 @@ func Load(opt LoadOptions) (*Prog, error) {
 	if opt.Pattern != nil {
 		pats = opt.Pattern
 	}
+	// x/tools resolves the "go" command through the PATH of this process, not through Config.Env:
+	// a PATH override (route A of DESIGN.md §1) has to be installed around the load.
+	for _, kv := range opt.Env {
+		if strings.HasPrefix(kv, "PATH=") {
+			old := os.Getenv("PATH")
+			os.Setenv("PATH", strings.TrimPrefix(kv, "PATH="))
+			defer os.Setenv("PATH", old)
+		}
+	}
 	initial, err := packages.Load(conf, pats...)
 	if err != nil {
 		return nil, fmt.Errorf("packages.Load: %v", err)
@@ -214,6 +224,11 @@ func Load(opt LoadOptions) (*Prog, error) {
 		parents: map[ast.Node]ast.Node{},
 		loadCfg: conf,
 	}
+	packages.Visit(initial, nil, func(pk *packages.Package) {
+		if pk.PkgPath == "sync" && len(pk.GoFiles) > 0 {
+			p.StdRoot = filepath.Dir(filepath.Dir(filepath.Dir(pk.GoFiles[0])))
+		}
+	})
 	sort.Slice(initial, func(i, j int) bool { return initial[i].PkgPath < initial[j].PkgPath })
 	for _, pk := range initial {
 		if pk.PkgPath == mod || strings.HasPrefix(pk.PkgPath, mod+"/") {
